@@ -8,9 +8,9 @@ LEVEL = "model_checking"
 def run(chk):
     th = build("plain")
     total = 0
-    for fam, L in (("temps", 6 if chk.thorough else 5), ("tempsgap", 6 if chk.thorough else 4), ("temps2", 6 if chk.thorough else 5)):
+    for fam, L in (("temps", 6 if chk.thorough else 5), ("tempsgap", 6 if chk.thorough else 4), ("tnest", 6 if chk.thorough else 5), ("temps2", 6 if chk.thorough else 5)):
         macros = macro.family_macros(chk, fam)
-        cases = macro.enumerate_paths(chk, fam, L, 4, invariants=("UniquePerLoc", "BestAgree", "PassBound", "GrowthBound"))
+        cases = macro.enumerate_paths(chk, fam, L, 5 if fam == "tnest" else 4, invariants=("UniquePerLoc", "BestAgree", "PassBound", "GrowthBound"))
         # in-model: TempsFresh as an action property on the same enumeration is implied by the name scheme (n, macro, pass); the
         # binding to the code is the bijection requirement of the replay, in four source layouts
         for layout in ("lines", "files", "oneline", "longname"):
